@@ -70,7 +70,7 @@ class Contract:
                  raises=None, modifies=None, effects=(), loops=None, locals=None, inline=False, funcs=None,
                  ghost=None, mode="prove", unroll=None, comps=None, name=None, setup=(), max_paths=None,
                  frame=None, lock=None, replay=None, timeout_ms=None, axioms=(), post_setup=(), pure_result=None, asserts=None, nonlinear=False, unreachable_ok=(),
-                 fs_inv=(), fs_policy=(), fs_opts=None, call_pre=None, witnesses=None, abstract_str_order=False):
+                 fs_inv=(), fs_policy=(), fs_opts=None, call_pre=None, witnesses=None, abstract_str_order=False, label=""):
         self.key = key
         self.prop = prop if isinstance(prop, (list, tuple)) else [prop]
         self.short = name or key.split(":", 1)[1]
@@ -116,6 +116,7 @@ class Contract:
         self.witnesses = dict(witnesses or {})
         self.abstract_str_order = abstract_str_order
         self.unreachable_ok = list(unreachable_ok)
+        self.label = label   # free text shown next to the contract name in reports
         self.pure_result = pure_result
         if pure_result is not None:
             self.ensures.append(("pure-result", "result == (%s)" % pure_result))
@@ -145,6 +146,9 @@ class Registry:
         self.fclauses = []
         self.assumed = []          # contracts used at call sites but not verified (dependencies)
         self.callable_uns = {}     # uninterpreted sort name -> funtype name (values of the sort are callables)
+        from .jsontree import TJObj, TJList
+        self.types.declare("JObj", TJObj())   # python-side JSON object model (bounded checks, see jsontree.py)
+        self.types.declare("JList", TJList())
 
     # --- declaration API used by /verif/contracts/*.py
     def record(self, name, fields, pyclass=None, dictlike=False):
@@ -178,6 +182,13 @@ class Registry:
         """mutable dict-shaped record with fixed string keys that lives *by value* inside maps / lists
         (e.g. the edge records of the GEL store); see values.TMutRec"""
         t = TMutRec(name, {k: self.types.parse(v) for k, v in fields.items()})
+        self.types.declare(name, t)
+        return t
+
+    def dictshape(self, name, required=None, optional=None):
+        """dict-shaped record (TDRec): a z3-encodable dict with fixed possible keys; `optional` keys may be absent"""
+        t = TDRec(name, {k: self.types.parse(v) for k, v in (required or {}).items()},
+                  {k: self.types.parse(v) for k, v in (optional or {}).items()})
         self.types.declare(name, t)
         return t
 
@@ -893,7 +904,7 @@ class Verifier:
                                    "(contradictory assumptions / too strong precondition?); list them in unreachable_ok "
                                    "with a reason if intended" % (missing, c.key))
         return {
-            "key": c.key, "short": c.short, "prop": c.prop, "mode": c.mode,
+            "key": c.key, "short": c.short, "prop": c.prop, "mode": c.mode, "label": c.label,
             "source_sha": frontend.source_hash(mod, node),
             "lines": (node.lineno, node.end_lineno),
             "paths": self.paths, "exits": self.exits, "queries": self.queries,
